@@ -210,6 +210,9 @@ func c06One(w *c06World, p C06Probe, cacheOn bool, attempt int64) (f *kit.Findin
 		// original presentation: served, then closed by us
 		c0, err := net.Dial("tcp", w.front.Addr)
 		if err != nil {
+			if kit.EnvNetError(err) {
+				return nil, false, "relay"
+			}
 			return kit.Violation("probe:dial-refused", "%v", err), false, class
 		}
 		c0.Write(preface)
@@ -223,6 +226,9 @@ func c06One(w *c06World, p C06Probe, cacheOn bool, attempt int64) (f *kit.Findin
 	t0 := time.Now()
 	conn, err := net.Dial("tcp", w.front.Addr)
 	if err != nil {
+		if kit.EnvNetError(err) {
+			return nil, false, "relay"
+		}
 		return kit.Violation("probe:dial-refused", "%v", err), false, class
 	}
 	defer conn.Close()
